@@ -385,7 +385,7 @@ V('M-global-counter', ['C12'], 'A5.census', BE, "    def __call__(self, value, a
 
 # ---- containers (C19)
 V('M-choice-clear', ['C19'], 'A10.companion', UN, "    def clear(self):\n        self._currentIdx = None\n        return Set.clear(self)", "    def clear(self):\n        return Set.clear(self)")
-V('M-sort-list', ['C19'], 'A10.field', UN, "        self._componentValues = dict(\n            enumerate(sorted(self._componentValues.values(),\n                             key=key, reverse=reverse)))", "        self._componentValues = sorted(self._componentValues.values(),\n                                       key=key, reverse=reverse)")
+V('M-sort-list', ['C19'], 'A10.field', UN, "        self._componentValues = dict(\n            enumerate(sorted(self.components,\n                             key=key, reverse=reverse)))", "        self._componentValues = sorted(self.components,\n                                       key=key, reverse=reverse)")
 V('M-stopiteration', ['C19', 'C08'], ('A10.pep479', 'A3.raise'), UN, "        if self._currentIdx is None:\n            return\n        yield self.componentType[self._currentIdx].getName()", "        if self._currentIdx is None:\n            raise StopIteration\n        yield self.componentType[self._currentIdx].getName()")
 V('M-idx-before-set', ['C19'], 'A10.single', UN, "        oldIdx = self._currentIdx\n        Set.setComponentByPosition(self, idx, value, verifyConstraints, matchTags, matchConstraints)\n        self._currentIdx = idx", "        oldIdx = self._currentIdx\n        self._currentIdx = idx\n        Set.setComponentByPosition(self, idx, value, verifyConstraints, matchTags, matchConstraints)")
 V('M-eq-return-value', ['C19'], 'A10.schema', BA, "    def __hash__(self):\n        return hash(self._value)", "    def __index__(self):\n        return self._value\n\n    def __hash__(self):\n        return hash(self._value)")
@@ -485,6 +485,26 @@ V('M-mask-eos', ['C06'], 'A3.mask', BD, "            for component in decodeFun(
 V('M-mark-relative', ['C11'], 'A12.mark', ST, "            self._markedPosition = 0\n\n    def tell(self):\n        return self._cache.tell()", "            self._markedPosition = 0\n\n    def tell(self):\n        return self._cache.tell() + self._markedPosition")
 
 V('M-offset-divmod-signed', ['C20'], 'A11.div', US, "            seconds = offset.days * 86400 + offset.seconds\n            if seconds < 0:\n                text += '-'\n                seconds = -seconds\n            else:\n                text += '+'\n            text += '%.2d%.2d' % (seconds // 3600, seconds % 3600 // 60)", "            hours, minutes = divmod(offset.days * 1440 + offset.seconds // 60, 60)\n            text += '%s%.2d%.2d' % (hours < 0 and '-' or '+', abs(hours), minutes)")
+
+# ---- round 3 (DESIGN.md 11.2)
+CDM = 'pyasn1/codec/cer/decoder.py'
+V('M-prepend-rewrapped', ['C01', 'C02', 'C04', 'C09'], 'W.sized', UN, "        if prepend is not None:\n            value = SizedInteger(\n                (SizedInteger(prepend) << len(value)) | value\n            ).setBitLength(len(prepend) + len(value))\n\n        if not internalFormat:\n            value = cls(value)\n\n        return value\n\n    def prettyIn", "        if prepend is not None:\n            prepend = SizedInteger(prepend)\n            value = SizedInteger(\n                (prepend << len(value)) | value\n            ).setBitLength(len(prepend) + len(value))\n\n        if not internalFormat:\n            value = cls(value)\n\n        return value\n\n    def prettyIn")
+V('M-segment-implicit-tag', ['C01', 'C02'], 'W.segtag', BE, "        if asn1Spec is None:\n            baseTag = value.tagSet.baseTag\n\n            # strip off explicit tags\n            if baseTag:\n                tagSet = tag.TagSet(baseTag, baseTag)\n\n            else:\n                tagSet = tag.TagSet()\n\n            asn1Spec = value.clone(tagSet=tagSet)", "        if asn1Spec is None:\n            asn1Spec = value.clone(tagSet=value.tagSet[:1])")
+V('M-eos-single-retry', ['C05', 'C06', 'C11'], 'A2.eosloop', ST, "        while True:\n            received = substrate.read(1)\n            if received is None:  # non-blocking stream has nothing yet\n                yield error.SubstrateUnderrunError()\n\n            else:\n                break\n", "        received = substrate.read(1)\n        if received is None:  # non-blocking stream has nothing yet\n            yield error.SubstrateUnderrunError()\n            received = substrate.read(1)\n")
+V('M-none-is-ended', ['C05', 'C06'], 'A2.ended', ST, "            if more is not None and not more:", "            if not more:")
+V('M-collector-method', ['C07', 'C09'], 'A5.methid', BD, "    @staticmethod\n    def substrateCollector(asn1Object, substrate, length, options):", "    def substrateCollector(self, asn1Object, substrate, length, options):")
+V('M-typemap-alias', ['C09', 'C12', 'C15'], 'A1.alias', CDM, "TYPE_MAP = decoder.TYPE_MAP.copy()", "TYPE_MAP = decoder.TYPE_MAP")
+V('M-useful-by-tag-only', ['C16'], 'A1.enctype', BE, "    char.BMPString.typeId: OctetStringEncoder(),\n    # useful types\n    useful.ObjectDescriptor.typeId: OctetStringEncoder(),\n    useful.GeneralizedTime.typeId: OctetStringEncoder(),\n    useful.UTCTime.typeId: OctetStringEncoder()\n}", "    char.BMPString.typeId: OctetStringEncoder()\n}")
+V('M-eoo-by-value', ['C07', 'C09', 'C16'], 'A8.eooid', BD, "            if length == -1 and component is eoo.endOfOctets:", "            if length == -1 and component == eoo.endOfOctets:")
+V('M-opentype-len', ['C18'], 'A6.truthy', OT, "    def __iter__(self):\n        return iter(self.__typeMap)", "    def __iter__(self):\n        return iter(self.__typeMap)\n\n    def __len__(self):\n        return len(self.__typeMap)")
+V('M-open-skip-unseen', ['C18'], 'A6.openskip', BD, "                            governingValue = asn1Object.getComponentByName(\n                                namedType.openType.name\n                            )\n", "                            if namedTypes.getPositionByName(namedType.openType.name) not in seenIndices:\n                                continue\n\n                            governingValue = asn1Object.getComponentByName(\n                                namedType.openType.name\n                            )\n")
+V('M-length-before-trim', ['C20'], 'A11.len', CE, "        if self.DOT_CHAR in numbers:\n\n            isModified = False", "        if not self.MIN_LENGTH < len(numbers) < self.MAX_LENGTH:\n            raise error.PyAsn1Error('Length constraint violated: %r' % value)\n\n        if self.DOT_CHAR in numbers:\n\n            isModified = False")
+V('M-sign-with-hours', ['C20'], 'A11.parse', US, "                minutes = int(tz[:2]) * 60 + int(tz[2:])\n                if plusminus == '-':\n                    minutes *= -1\n", "                hours, minutes = int(plusminus + tz[:2]), int(tz[2:])\n                if hours < 0:\n                    minutes *= -1\n                minutes += hours * 60\n")
+V('M-empty-before-consistency', ['C14'], 'C14.enc', BE, "    def _encodeComponents(self, value, asn1Spec, encodeFun, **options):\n\n        if asn1Spec is None:", "    def _encodeComponents(self, value, asn1Spec, encodeFun, **options):\n\n        if not value:\n            return []\n\n        if asn1Spec is None:")
+V('M-real10-truediv', ['C01', 'C08'], 'W.real10', UN, "            m //= 10\n            e += 1", "            m /= 10\n            e += 1")
+V('M-reverse-insertion', ['C04', 'C19'], 'A10.order', UN, "            enumerate([self._componentValues[idx]\n                       for idx in sorted(self._componentValues, reverse=True)]))", "            enumerate(reversed(self._componentValues.values())))")
+V('M-sort-insertion', ['C19'], 'A10.order', UN, "            enumerate(sorted(self.components,\n                             key=key, reverse=reverse)))", "            enumerate(sorted(self._componentValues.values(),\n                             key=key, reverse=reverse)))")
+V('M-sortkey-nested-static', ['C03', 'C17'], 'A9.dyn', DE, "                # TODO: support nested CHOICE ordering\n                return asn1Spec[names[0]].tagSet[-1:]", "                chosenSpec = asn1Spec[names[0]]\n\n                if chosenSpec.typeId == univ.Choice.typeId and not chosenSpec.tagSet:\n                    return chosenSpec.componentType.minTagSet[-1:]\n\n                return chosenSpec.tagSet[-1:]")
 
 # --------------------------------------------------------------------------- runner
 
